@@ -26,6 +26,7 @@ type c01Case struct {
 	Content  int    `json:"content"`           // 0 keyed, 1 zeros, 2 ones
 	Chan     string `json:"channel,omitempty"` // "echo" (default) or "echo2": two channels whose names share a prefix
 	Seed     int64  `json:"seed"`
+	Dump     bool   `json:"pipe_debug,omitempty"` // SOCKETACE_PIPE_DEBUG=1: PipeData copies through its traffic-dump path
 }
 
 var boundaryLens = []int64{1, 2, 4095, 4096, 4097, 32639, 32640, 32641, 32767, 32768, 32769, 65535, 65536, 65537, 1<<20 + 1, 3<<20 + 7}
@@ -112,9 +113,14 @@ func maxLen(carrier string, thorough bool) int64 {
 }
 
 func runCase(rec *vcommon.Rec, p *e2e.Pair, c *c01Case) (openFailed bool) {
+	c.Dump = os.Getenv("SOCKETACE_PIPE_DEBUG") == "1"
 	rec.Mark(c)
 	key := fmt.Sprintf("%s/%s/%d/%d/%d/%d/%d", c.Carrier, c.Listener, c.LenC2T, c.LenT2C, c.SegC2T, c.SegT2C, c.Content)
 	sigBase := c.Carrier + ":" + c.Listener
+	if c.Dump {
+		key += "/dump"
+		sigBase = c.Carrier + "(traffic-dump):" + c.Listener
+	}
 	chn := c.Chan
 	if chn == "" || p.Targets[chn] == nil {
 		chn = "echo"
@@ -418,6 +424,9 @@ func TestVerifC01(t *testing.T) {
 		if err := json.Unmarshal(rec.Replay, &c); err != nil {
 			t.Fatal(err)
 		}
+		if c.Dump {
+			os.Setenv("SOCKETACE_PIPE_DEBUG", "1")
+		}
 		p, err := e2e.Start(e2e.Options{Carrier: c.Carrier, Listener: c.Listener})
 		if err != nil {
 			rec.Violation(c.Carrier+":"+c.Listener+":setup-failed", c, err.Error())
@@ -436,17 +445,29 @@ func TestVerifC01(t *testing.T) {
 			items = append(items, item{c, "tcp"})
 		}
 	}
+	extras := os.Getenv("VERIF_CARRIERS") == "" // a run restricted to some carriers has the plain per-carrier items only
+	if v := os.Getenv("SOCKETACE_PIPE_DEBUG"); v != "" {
+		rec.Seen("SOCKETACE_PIPE_DEBUG", v)
+	}
 	for _, c := range []string{"tcp", "ws", "tcp+starttls"} {
-		items = append(items, item{c, "stdio"})
+		if extras {
+			items = append(items, item{c, "stdio"})
+		}
 	}
 	for _, c := range []string{"tcp", "wss", "udp"} {
-		items = append(items, item{c, "socks"}) // the channel is the server's built-in SOCKS5 proxy
+		if extras {
+			items = append(items, item{c, "socks"})
+		} // the channel is the server's built-in SOCKS5 proxy
 	}
 	for _, c := range []string{"tcp", "ws", "udp", "dns"} {
-		items = append(items, item{c, "slow"})
+		if extras {
+			items = append(items, item{c, "slow"})
+		}
 	}
 	for _, c := range []string{"dns", "dns+starttls", "udp", "ws"} {
-		items = append(items, item{c, "sizes"})
+		if extras {
+			items = append(items, item{c, "sizes"})
+		}
 	}
 	for idx, it := range items {
 		if !rec.Mine(idx) {
